@@ -51,5 +51,27 @@ let tcpconsts _ =
   Printf.sprintf "hard=%d rxbuf=%d hdrbuf=%d" (int_of_z tcp_hard_cap_default)
     (int_of_z tcp_rxbuf_default) (int_of_z tcp_hdr_buf)
 
+(* psize <hdr bytes> : coap_pdu_parse_header_size, token extension bytes, coap_pdu_parse_size
+   on the first hdr_size + tok_ext bytes *)
+let psize toks =
+  match toks with
+  | [h] ->
+      let b = bytes_of_tok h in
+      (match b with
+       | [] -> "ERROR empty"
+       | b0 :: _ ->
+           let hs = int_of_z (tcp_hdr_size b0) and te = int_of_z (tcp_tok_ext b0) in
+           (match tcp_parse_size (take_n (hs + te) b) with
+            | None -> Printf.sprintf "%d %d OOB" hs te
+            | Some s -> Printf.sprintf "%d %d %d" hs te (int_of_z s)))
+  | _ -> failwith "psize args"
+
+(* maxrcv <mtu> : coap_session_max_pdu_rcv_size of a TCP session whose csm_rcv_mtu is mtu *)
+let maxrcv toks =
+  match toks with
+  | [m] -> string_of_int (int_of_z (tcp_max_rcv (zi m)))
+  | _ -> failwith "maxrcv args"
+
 let () =
+  register "tcpsize" psize; register "tcpmaxrcv" maxrcv;
   register "tcp" (tcp_gen true); register "tcp0" (tcp_gen false); register "tcpconsts" tcpconsts
